@@ -14,6 +14,19 @@ ASSETS = ["USD", "EUR/2"]
 BIG = 2 ** 64
 
 
+def boundary_ints():
+    """integers around machine-word boundaries and powers of ten (where a fast path or a narrowing would break)"""
+    out = set()
+    for k in (7, 8, 15, 16, 31, 32, 52, 53, 61, 62, 63, 64, 65, 66, 127, 128):
+        for d in (-2, -1, 0, 1, 2):
+            out.add(2 ** k + d)
+    for k in (9, 10, 18, 19, 20, 21, 22, 38, 39):
+        for d in (-1, 0, 1):
+            out.add(10 ** k + d)
+    out |= {4000000000000000001, 200000000000000003, 3 * 2 ** 61 + 1, 6148914691236517205, 12297829382473034411}
+    return sorted(x for x in out if x > 0)
+
+
 class Ctx:
     def __init__(self, rng, profile):
         self.rng = rng
@@ -62,6 +75,8 @@ def render_value(v):
 
 def pick_amount(ctx, around=None):
     r = ctx.rng
+    if ctx.p.get("small_values"):
+        return r.choice([0, 3, 5, 5, 10, 10, 10, 12])
     x = r.random()
     if around is None and ctx.balances and r.random() < ctx.p.get("exact_balance", 0.3):
         # exactly (or one off) what some account holds: boundary of every comparison with a balance
@@ -281,6 +296,12 @@ def gen_statement(ctx):
     x = r.random()
     if x < ctx.p.get("send", 0.55):
         n = pick_amount(ctx)
+        prev = getattr(ctx, "sent_amounts", [])
+        if prev and r.random() < 0.3:
+            # the same amount (often the same variable) sent again by a later statement
+            n = r.choice(prev)
+            ctx.features.add("amount-resent")
+        ctx.sent_amounts = prev + [n]
         if ctx.chance("negative_amount", 0.02):
             n = -r.randrange(1, 10)
             ctx.features.add("negative-amount")
@@ -368,6 +389,8 @@ def gen_case(seed, index, profile=None):
                 v = BIG + rng.randrange(0, 100)
             elif x < 0.45:
                 continue      # absent entry
+            elif p.get("small_values"):
+                v = rng.choice([3, 7, 10, 100])
             else:
                 v = rng.choice([rng.randrange(1, 30), rng.randrange(20, 300)])
             ctx.balances[(a, c)] = v
